@@ -22,10 +22,15 @@
 //@ header
     pub fn get_or_create_job(&mut self, id: Id, command: CommandFn, env: &mut HEnv) -> (r: Job)
         ensures
+            // a job created under this id EARLIER IN THE SAME ACTION is handed out again: a second one would replace it in `new`, and the first would never
+            // be adopted by the worker, so no quit would ever stop it (D20)
+            old(self).new.m@.contains_key(id) ==> r == old(self).new.m@[id].0 && final(env).started == old(env).started && final(self).new == old(self).new, // OBL:C08+C05.handler.get_or_create_job_reuses_the_job_created_earlier_in_this_action
             // an id that is already supervised yields that job and starts nothing: the same id in every action means one job for the whole run
-            old(self).extant.m@.contains_key(id) ==> r == old(self).extant.m@[id] && final(env).started == old(env).started && final(self).new == old(self).new, // OBL:C05+C08.handler.get_or_create_job_reuses_the_supervised_job
+            !old(self).new.m@.contains_key(id) && old(self).extant.m@.contains_key(id) ==> r == old(self).extant.m@[id] && final(env).started == old(env).started && final(self).new == old(self).new, // OBL:C05+C08.handler.get_or_create_job_reuses_the_supervised_job
             // otherwise exactly one job is started and recorded under that id
-            !old(self).extant.m@.contains_key(id) ==> final(env).started@.len() == old(env).started@.len() + 1 && final(env).started@.last().1 == r
+            !old(self).new.m@.contains_key(id) && !old(self).extant.m@.contains_key(id) ==> final(env).started@.len() == old(env).started@.len() + 1 && final(env).started@.last().1 == r
                 && final(env).started@.last().0 == command.yields && final(self).new.m@ == old(self).new.m@.insert(id, (r, final(env).started@.last().2)), // OBL:C05+C08.handler.get_or_create_job_creates_exactly_one_job_otherwise
+            // no job recorded for adoption is ever replaced (and thereby leaked) by this call
+            forall|k: Id| old(self).new.m@.contains_key(k) ==> final(self).new.m@.contains_key(k) && final(self).new.m@[k] == old(self).new.m@[k], // OBL:C08.handler.get_or_create_job_never_replaces_a_job_recorded_for_adoption
             final(self).extant == old(self).extant,
 //@ end
